@@ -22,7 +22,7 @@ RULE = (
     "ratios (k1, k2) in [0.5, 2] differing by >= 30%, smooth toy inputs including an intrinsic heavy component, log grid on "
     "[0.05, 1] (6 points quick, 8-10 thorough, 15 points degree 4 for n=3), alpha_s(threshold) <= 0.25 scaled by lambda in {1, 1/2, "
     "1/4, 1/8} (n=3: {1, 1/2, 1/4}; quick tier: {1/2, 1/4, 1/8}). R(lambda) = max over flavours and grid points of |f_k1 - f_k2| at the common final "
-    "scale; statistic = best local exponent max_i log2(R(l_i)/R(l_i+1)); required >= n - 0.3. Non-trivial = R(1) is 100x "
+    "scale; statistic = best local exponent max_i log2(R(l_i)/R(l_i+1)); required >= n - 0.3, for the global norm and (n <= 2) for every flavour channel and q - qbar combination whose R(1) is at least 1e-3 of the global one. Non-trivial = R(1) is 100x "
     "above the quadrature noise floor; distinct by (n, mode, direction, inversion, grid)."
 )
 ASSUMPTIONS = [
@@ -179,6 +179,7 @@ def check_case(case):
     res.key = [n, case["mode"], direction, card["inv"], len(card["xgrid"]), card["method"]]
     f0 = toy_input(case["pdf"], card["xgrid"])
     R = []
+    diffs = []
     fmax = 0.0
     workers = case.get("workers", 4)
     try:
@@ -206,6 +207,7 @@ def check_case(case):
             for i, lam in enumerate(lams):
                 fs = [np.einsum("ajbk,bk->aj", list(outs[2 * i + j].values())[0][0], fins[i]) for j in range(2)]
                 R.append(float(np.max(np.abs(fs[0] - fs[1]))))
+                diffs.append(fs[0] - fs[1])
                 fmax = max(fmax, float(np.max(np.abs(fs[0]))))
     except (NotImplementedError, ValueError, ru.SolveRefused) as e:
         return CaseResult(discarded=f"refused:{type(e).__name__}")
@@ -216,6 +218,29 @@ def check_case(case):
     res.nontrivial = bool(R[0] > 100 * noise and len(usable) >= 2)
     if not res.nontrivial:
         return res
+    # every flavour channel (and every q - qbar combination) on its own, for n <= 2 (at n = 3 the interpolation floor
+    # ~ eps_interp a_s^2 of small channels would mimic a lower order, so only the global norm is used there)
+    if n <= 2:
+        chans = {f"pid-row{i}": [np.max(np.abs(d[i])) for d in diffs] for i in range(1, 14)}
+        for q in range(1, 7):
+            chans[f"q{q}-qbar"] = [np.max(np.abs(d[IDX[q]] - d[IDX[-q]])) for d in diffs]
+        for name, Rc in chans.items():
+            Rc = [float(r) for r in Rc]
+            use = [r for r in Rc if r > 100 * noise]
+            if len(use) < 2 or Rc[0] < 1e-3 * R[0]:
+                continue
+            exc = local_exponents(use)
+            # a channel is judged only if its local exponents do not rise towards n (a sign change of two competing
+            # terms gives small, rising exponents on correct code); otherwise it is undecided
+            if not max(exc) >= n - 0.3 and exc[-1] <= exc[0] + 0.2:
+                kind = "heavy" if name in (f"pid-row{IDX[case['nfl'] + 1]}", f"pid-row{IDX[-(case['nfl'] + 1)]}", f"q{case['nfl'] + 1}-qbar") else "light"
+                res.fail(
+                    f"{ID}/exponent-channel/{kind}/n={n}/mode={case['mode']}/dir={direction}",
+                    f"channel {name}: matching-ratio dependence for k={case['k']} scales with local exponents "
+                    f"{['%.2f' % e for e in exc]} (R={['%.3e' % r for r in Rc]}, lambdas {case['lambdas']}); required >= {n - 0.3:.1f}; "
+                    f"path {card['init']} -> {card['mugrid'][0]} inv={card['inv']} method={card['method']}",
+                )
+                break
     ex = local_exponents(usable)
     best = max(ex)
     res.classes.append(f"best-exp~{round(best * 2) / 2}")
